@@ -28,6 +28,10 @@ This module closes the remaining gap by correspondence, on every run:
       within its side conditions; the file and what was written are both read by the extracted rules and compared as
       denotations; a changed title is a failure (or the known finding F-C01-spec-title-last-column), differences caused
       by the object layer (outside the theorem's model) are classified and counted;
+  (f) '$' comments whose text ends in " &" (and holds other '&') on the last line of a surface / data card followed by a
+      further card, added to plain renderings that the real code round-trips: the real read -> write of the decorated
+      file must succeed and keep cards and tokens per block (read by the extracted rules); a failure is reported through
+      ctx.fail as a concrete failing input of C01;
   (d) a sample of the extracted answers is re-evaluated inside Coq by vm_compute.
 
 A mismatch is shrunk and appended to ctx.broken_obligations.  Known, reported deviations of spec.py from the rules
@@ -993,6 +997,92 @@ def run(ctx):
             rt[k] += 1
     res["roundtrip_real"] = rt
 
+    # (f) '$' comments whose text ends in " &" (and holds other '&') on the last line of a surface / data card that is
+    # followed by a further card: by S6 the '&' is comment text, the next card is a card of its own.  A plain rendering
+    # that the real code reads and writes back is decorated that way; the real round trip of the decorated file must
+    # succeed and, read by the extracted rules, keep the number of cards and the tokens of every block (as far as
+    # the undecorated file keeps them: the object layer's own reorderings are not judged here).  A failure is a
+    # concrete failing input of property C01 (ctx.fail).
+    da = {"files": 0, "base_not_usable": 0, "decorated_lines": 0, "ok": 0, "failures": 0}
+    n_da = 400 if thorough else 45
+
+    def shape(ans):
+        d = denotation(ans)
+        return [(len(b), sorted(t for c in b for t in c[0])) for b in d[1]]
+
+    for j in range(n_da):
+        rng = random.Random(f"{ctx.seed}:SpecDollarAmp:{j}")
+        w = rng.choice(WIDTHS)
+        P = gen.gen_problem(rng, dict(max_cells=rng.choice([1, 2, 3])))
+        text = gen.render(rng, P, dict(gen.PLAIN, width=w - 3))
+        if "\r" in text:
+            continue
+        da["files"] += 1
+        base_out = real_roundtrip(text, w)
+        if not isinstance(base_out, str):
+            da["base_not_usable"] += 1
+            continue
+        a0 = ask(["cards %d %s" % (w, hx(text)), "cards %d %s" % (w, hx(base_out)), "wf %d %s" % (w, hx(text))])
+        if a0[2] != "1" or shape(a0[0]) != shape(a0[1]):
+            da["base_not_usable"] += 1
+            continue
+        lines = text.split("\n")
+        nblank = 0
+        started = False
+        ndec = 0
+        for k in range(1, len(lines) - 1):
+            l, nxt = lines[k], lines[k + 1]
+            if l.strip() == "":
+                nblank += 1
+                continue
+            if nblank not in (1, 2) or _C_LINE.match(l) or "$" in l or l.rstrip().endswith("&") or "\t" in l:
+                continue
+            if not nxt.strip() or nxt[:5].strip() == "" or _C_LINE.match(nxt):
+                continue                     # the next line must start a further card
+            if re.match(r"\s*[fs]c\d", l, re.I):
+                continue                     # FCn / SCn: free text
+            tail = rng.choice([" $ inner sphere, see fuel &", " $ a & b &", " $ R&D note &", " $ &", " $ x & y & z &"])
+            if len(l.rstrip()) + len(tail) <= w - 1 and rng.random() < 0.6:
+                lines[k] = l.rstrip() + tail
+                ndec += 1
+        if not ndec:
+            da["base_not_usable"] += 1
+            continue
+        da["decorated_lines"] += ndec
+        dec = "\n".join(lines)
+        out = real_roundtrip(dec, w)
+        why = None
+        if not isinstance(out, str):
+            why = "the real round trip of the decorated file raises " + out[1]
+        else:
+            a1 = ask(["cards %d %s" % (w, hx(dec)), "cards %d %s" % (w, hx(out)), "wf %d %s" % (w, hx(dec))])
+            if a1[2] == "1" and shape(a1[0]) != shape(a1[1]):
+                why = "cards per block / tokens change: read %r written %r" % (shape(a1[0]), shape(a1[1]))
+        if why is None:
+            da["ok"] += 1
+            continue
+        da["failures"] += 1
+
+        def failing(t):
+            o = real_roundtrip(t, w)
+            if not isinstance(o, str):
+                b = real_roundtrip(re.sub(r" \$[^\n]*&(?=\n|$)", "", t), w)
+                return isinstance(b, str)
+            return False
+        small = dec
+        if not isinstance(out, str):
+            try:
+                small = shrink_text(dec, failing) if len(dec) < 3000 else dec
+            except Exception:
+                small = dec
+        case = {"kind": "roundtrip-dollar-comment-ends-amp", "width": w, "text": small, "why": why,
+                "what": "a '$' comment whose text ends in ' &' on the last line of a card that is followed by a further "
+                        "card: the unedited read -> write of this well-formed file fails or changes the cards",
+                "case": {"kind": findings_Spec.KIND, "width": w, "text": small}}
+        if hasattr(ctx, "fail"):
+            ctx.fail(case)
+    res["dollar_amp_roundtrip"] = da
+
     # (d) vm_compute cross-check -----------------------------------------------------------------------------
     allq = reqs + treqs + nreqs + greqs + sreqs + screqs
     alla = answers + tans + nans + gans + sans + scans
@@ -1040,7 +1130,9 @@ def main(argv):
     bad = list(ctx.broken_obligations)
     for b in bad[:6]:
         print("BROKEN:", json.dumps(b, default=str)[:1500])
-    if bad or not res.get("obligations_proved"):
+    for vp, nf in getattr(ctx, "violations", []):
+        print("VIOLATION (concrete failing input) replay=%s" % vp)
+    if bad or not res.get("obligations_proved") or getattr(ctx, "violations", []):
         print("spec_tie: FAILED (%d broken)" % len(bad))
         return 1
     print("spec_tie: OK  files=%d in-scope=%d wf=%d real-reader=%d numbers=%d wall=%ss" % (
